@@ -5,7 +5,7 @@ import sys
 import time
 
 VERIF = os.path.dirname(os.path.dirname(os.path.abspath(__file__)))
-EVID = os.path.join(VERIF, 'evidence')
+EVID = os.environ.get('HMSA_EVIDENCE') or os.path.join(VERIF, 'evidence')     # selftest runs on scratch copies write elsewhere
 KNOWN = os.path.join(VERIF, 'known_findings.json')
 
 
